@@ -249,9 +249,12 @@ def block_order(ctx, tm, psi, as_mpdm=False):
     for spec in specs:
         p = advertised(spec)
         nm = name_of(spec)
+        # smaller steps for the high orders: a defect in the k-th Taylor coefficient only dominates the
+        # legitimate (k+1)-th order term when ||H|| dt is small
+        Ns = (4, 8, 16) if p >= 4 else (2, 4, 8)
         try:
             errs = []
-            for N in (2, 4, 8):
+            for N in Ns:
                 out = evolve_n(psi, mpo, T, N, spec, big, normalize=normalize, criteria=criteria)
                 errs.append(float(np.linalg.norm(dense_state(out) - ref)))
         except Exception as e:  # the property promises a result for these inputs
@@ -261,7 +264,7 @@ def block_order(ctx, tm, psi, as_mpdm=False):
         run.count(f"order:{nm}:{verdict}")
         ctx.evald(("order", label, nm), moved)
         if verdict == "bad":
-            run.violation(f"{nm}:order", replay_base(tm, v0, spec, T=T, steps=[2, 4, 8], errors=errs,
+            run.violation(f"{nm}:order", replay_base(tm, v0, spec, T=T, steps=list(Ns), errors=errs,
                                                       observed_order=obs, advertised=p, criteria=criteria,
                                                       normalize=normalize, mpdm=as_mpdm))
     run.sample(dict(block="order", model=tm.label, dims=tm.dims, normH=nh, T=T, mpdm=as_mpdm, criteria=criteria))
@@ -657,6 +660,8 @@ def gauge_variants(ctx, tm, psi):
     yield "left-canonical", m
     # diagonal gauge on every bond: keeps quantum-number blocks, destroys orthonormality
     m = psi.copy()
+    m.ensure_left_canonical()   # rest invariant "sweeping left from the last site": the VMF variants with
+    #                             force_ovlp=True then keep the (non-orthonormal) tensors as they are
     for k in range(n - 1):
         d = rng.uniform(0.5, 2.0, size=m[k].shape[-1])
         a, b = np.asarray(m[k].array), np.asarray(m[k + 1].array)
@@ -686,7 +691,8 @@ def block_gauge(ctx, tm, psi):
         assert dv < 1e-9, ("gauge generator changed the vector", g, dv)
     specs = GAUGE_SPECS
     if ctx.quick:
-        specs = GAUGE_SPECS[:5] + [GAUGE_SPECS[i] for i in sorted(rng.choice(range(5, 9), size=2, replace=False))]
+        # always one variant that keeps the non-orthonormal left environment (force_ovlp=True)
+        specs = GAUGE_SPECS[:5] + [GAUGE_SPECS[int(rng.choice([5, 7]))], GAUGE_SPECS[int(rng.choice([6, 8]))]]
     for spec in specs:
         nm = name_of(spec)
         base = nm.split(":")[0]
